@@ -51,11 +51,11 @@ def gen_boundary(tier, rng):
             for (dw, dh) in ((0, 0), (1, 1), (2, 3), (sw, sh), (7, 1), (31, 2)):
                 for (alg, flt, m) in algs:
                     n += 1
-                    if n % (8 if tier == "quick" else 2):
+                    if rz.pick(n, 404, range(8 if tier == "quick" else 2)):
                         continue
                     slay = rz.pick(n, 106, srcs)
                     typed = slay["k"].startswith("typed")
-                    dlay = dsts["typed" if typed else "dyn"][n % (3 if typed else 4)]
+                    dlay = rz.pick(n, 401, dsts["typed" if typed else "dyn"])
                     cases.append(rz.resize_case(pt, sw, sh, dw, dh, alg=alg, flt=flt, m=m, alpha=n % 2 == 0, cpu=rz.pick(n, 102, rz.CPUS),
                                                 src_c={"g": "rand", "seed": n, "flo": 0.0, "fhi": 1.0}, src_lay=slay, dst_lay=dlay,
                                                 api="typed" if typed else "dyn", log=("digest",), chk=("pipeline", "no_panic", "outside", "srcsame")))
@@ -69,11 +69,11 @@ def gen_boundary(tier, rng):
                 for (alg, flt, m) in algs:
                     for (dw, dh) in ((1, 1), (3, 2), (9, 5)):
                         n += 1
-                        if n % (6 if tier == "quick" else 2):
+                        if rz.pick(n, 405, range(6 if tier == "quick" else 2)):
                             continue
                         cases.append(rz.resize_case(pt, sw, sh, dw, dh, alg=alg, flt=flt, m=m, alpha=n % 2 == 0, box=box, Q=Q, cpu=rz.pick(n, 103, rz.CPUS),
-                                                    src_c={"g": "rand", "seed": n, "flo": 0.0, "fhi": 1.0}, src_lay=srcs[n % 4],
-                                                    dst_lay=dstsrz.pick(n, 107, ["dyn"]), log=("digest",), chk=("pipeline", "no_panic", "outside", "srcsame")))
+                                                    src_c={"g": "rand", "seed": n, "flo": 0.0, "fhi": 1.0}, src_lay=rz.pick(n, 403, srcs[:4]),
+                                                    dst_lay=rz.pick(n, 107, dsts["dyn"]), log=("digest",), chk=("pipeline", "no_panic", "outside", "srcsame")))
     # 3. crop boxes outside the rational grid: one ulp inside the right/bottom edge, denormal extents, non-finite, negative
     for pt in ("U8", "U8x4", "U16", "F32", "U16x4"):
         for (sw, sh) in ((1, 1), (4, 3), (100, 2)):
@@ -92,10 +92,10 @@ def gen_boundary(tier, rng):
                 for (alg, flt, m) in algs:
                     for (dw, dh) in ((1, 1), (3, 2), (70, 1)):
                         n += 1
-                        if n % (4 if tier == "quick" else 1):
+                        if rz.pick(n, 406, range(4 if tier == "quick" else 1)):
                             continue
                         cases.append(raw_crop_case(pt, sw, sh, dw, dh, crop, alg, flt, rz.pick(n, 104, rz.CPUS), n, ("no_panic", "outside", "srcsame"), m=m,
-                                                   src_lay=srcs[n % 4], dst_lay=dstsrz.pick(n, 108, ["dyn"])))
+                                                   src_lay=rz.pick(n, 402, srcs[:4]), dst_lay=rz.pick(n, 108, dsts["dyn"])))
     # 4. custom kernels: sum |w| < 4 must neither panic nor crash; beyond that at least no crash / abort
     for pt in rz.ALL_PT:
         for (flt, fparam, support, lim) in (("c_lobes", (12, 64), (3, 2), "nopanic"), ("c_lobes", (45, 64), (3, 2), "nopanic"), ("c_lobes", (47, 64), (3, 2), "nopanic"),
@@ -105,7 +105,7 @@ def gen_boundary(tier, rng):
             for (sw, sh, dw, dh) in ((6, 5, 6, 9), (9, 4, 4, 4), (5, 5, 12, 3), (3, 3, 3, 7)):
                 for alg in ("conv", "interp", "ss"):
                     n += 1
-                    if n % (4 if tier == "quick" else 1):
+                    if rz.pick(n, 406, range(4 if tier == "quick" else 1)):
                         continue
                     c = rz.resize_case(pt, sw, sh, dw, dh, alg=alg, flt=flt, m=1, alpha=False, cpu=rz.pick(n, 105, rz.CPUS), support=support,
                                        src_c={"g": "rand", "seed": n, "flo": 0.0, "fhi": 1.0} if n % 2 else
